@@ -367,13 +367,22 @@ def mergeAttrs (parsed : Dict AVal) (yaml : List (Nat × AVal)) : Dict AVal := d
 
 inductive CVal where
   | bool (b : Bool)
+  | int (n : Nat)
   | str (s : List Char)
 deriving Repr, DecidableEq
 
-/-- `"true"/"True"` -> `True`, `"false"/"False"` -> `False`, else the text -/
+def isAsciiDigit (c : Char) : Bool := '0' ≤ c ∧ c ≤ '9'
+
+/-- `int(text)` for a string of ASCII digits -/
+def digitsToNat (s : List Char) : Nat := s.foldl (fun acc c => acc * 10 + (c.toNat - 48)) 0
+
+/-- `"true"/"True"` -> `True`, `"false"/"False"` -> `False`, a non-empty
+    string of digits (`str.isdigit()`, modelled on ASCII digits) -> `int`,
+    else the text -/
 def coerce (s : List Char) : CVal :=
   if s = "true".toList ∨ s = "True".toList then .bool true
   else if s = "false".toList ∨ s = "False".toList then .bool false
+  else if s ≠ [] ∧ s.all isAsciiDigit then .int (digitsToNat s)
   else .str s
 
 /-- `option.split("=", 1)`; `none` = `ValueError` (no `=`: one element cannot
